@@ -76,6 +76,19 @@ CLAIMED = {
                 "capture contents.",
         "technique": "CFG dominance with loop-scope condition + key/property tables + canonical-form comparison + regex language membership on re._parser trees",
     },
+    "C18": {
+        "category": "other",
+        "text": "Structural clauses of 'a plot draws the fit's numbers': for the four plot adapters, each of the eight role properties (data/model x, y, xerr, yerr) reads "
+                "what its name says - three independent agreements read off the attribute names: axis (x vs y), kind (value vs uncertainty / half width), side (data vs "
+                "model); error bars read the *total* uncertainties, histogram markers sit at the bin centres with half the bin width as horizontal bar; draw calls "
+                "receive the role properties in the documented slots; the plotted uncertainty is sqrt(sum yerr^2 + Poisson term^2); ratio / residual / pull and the "
+                "three band formulas have the documented canonical forms; the curve and the band are evaluated at the same support points; the info box refreshes "
+                "the described fit's formatters in the same iteration before printing them and prints cost, ndf, goodness of fit and probability read from the same "
+                "fit (multi-fit numbers from the multi-fit).",
+        "note": "Coordinates of matplotlib artists, log axes, figure layout and the numerical value of the error band are not decided. The role agreements rely on the "
+                "naming convention of FitBase's public attributes (x_/y_ prefixes, *_error, data/model).",
+        "technique": "name-derived role tables + call-slot tables + canonical-form comparison + CFG dominance with loop-scope condition",
+    },
     "C19": {
         "text": "Validate-then-commit path rule (R-A) on the CFG of every function executable after construction on 31 anchor classes (fits, containers, "
                 "parametric models, Nexus and node classes, NexusFitter, both minimizer adapters, CovMat, error and constraint classes): no rejection point "
